@@ -362,6 +362,11 @@ func checkC10Sched(job *Job, res *Result) {
 		replaySched(job, res, func(params []byte, sched []int) schedOut {
 			var p c10Params
 			mustJSON(params, &p)
+			if strings.HasPrefix(p.Name, "follower-subscriber") {
+				var fp c10FollowSubParams
+				mustJSON(params, &fp)
+				return c10FollowSubRun(job, fp, sched)
+			}
 			if strings.HasPrefix(p.Name, "redefine-") {
 				var rp c10RedefParams
 				mustJSON(params, &rp)
@@ -388,6 +393,16 @@ func checkC10Sched(job *Job, res *Result) {
 		if p.Kind == "chan" {
 			res.Sample(map[string]any{"scenario": sc.Name, "outcomes": st.Outcomes})
 		}
+		if res.EngineError != "" {
+			return
+		}
+	}
+	{
+		p := c10FollowSubParams{Name: "follower-subscriber-3-channels", Nchan: 3}
+		b := bound - 1 // two servers: ~150 points per execution
+		sc := schedScenario{Name: "c10." + p.Name, Params: p, Run: func(prefix []int) schedOut { return c10FollowSubRun(job, p, prefix) }, DevBound: true}
+		st := exploreSched(job, res, sc, b)
+		res.Extra[sc.Name] = map[string]any{"execs": st.Execs, "outcomes": len(st.Outcomes), "max_choice_points": st.MaxPoints, "bound": b}
 		if res.EngineError != "" {
 			return
 		}
@@ -517,6 +532,7 @@ func checkC10Fault(job *Job, res *Result) {
 	res.Bounds["max_script_length"] = maxLen
 	c10Outage(job, res, &caseNo)
 	c10ExpirySweep(job, res, &caseNo)
+	c10FollowerSubscribers(job, res, &caseNo)
 }
 
 // c10Outage: the hook queue lives in a file (queue.db, the default); while the
@@ -604,6 +620,12 @@ func c10Outage(job *Job, res *Result, caseNo *int) {
 				}
 				vsched.Sleep(int64(1200 * stdtime.Millisecond)) // anything sent twice shows up now
 				vsched.Quiesce()
+				// the retention of a queued notification is fixed (30 s, real time, never
+				// reached here): failed attempts and retries must not change it for later ones
+				if ttl := int64(hookLogSetDefaults.TTL); ttl != int64(30*stdtime.Second) || !hookLogSetDefaults.Expires {
+					viol("retention-changed", fmt.Sprintf("after the outage new notifications are queued with a retention of %v (expires=%v) instead of 30 s", stdtime.Duration(ttl), hookLogSetDefaults.Expires))
+					hookLogSetDefaults.TTL, hookLogSetDefaults.Expires = 30*stdtime.Second, true
+				}
 				var got []string
 				for _, m := range ep.OK() {
 					got = append(got, msgKey(m))
@@ -869,3 +891,96 @@ func checkC10Seq(job *Job, res *Result) {
 	res.States += len(seen)
 	res.Bounds["depth"] = depth
 }
+
+// c10FollowerSubscribers: channel messages are forwarded to followers; a
+// subscriber on a caught-up follower gets what a subscriber on the leader gets,
+// once each, per channel in the leader's order.
+func c10FollowerSubscribers(job *Job, res *Result, caseNo *int) {
+	for _, nchan := range []int{1, 3, 8} {
+		for _, nset := range []int{1, 2, 5} {
+			*caseNo++
+			if *caseNo%job.NShards != job.Shard {
+				continue
+			}
+			nchan, nset := nchan, nset
+			viol := func(sig, detail string) {
+				res.Violate("C10/follower-subscriber-"+sig, fmt.Sprintf("%s  [%d channels on one fence, %d SETs on the leader]", detail, nchan, nset), map[string]any{"follower_subs": []int{nchan, nset}})
+			}
+			x := runExec(job, freezeAllBut("follow", "Serve#2", "Serve#4"), func(x *Exec) {
+				L := x.Start("L", x.dir+"/L", 9001, nil)
+				F := x.Start("F", x.dir+"/F", 9002, nil)
+				lc, fc := x.Dial(L.Addr), x.Dial(F.Addr)
+				for i := 0; i < nchan; i++ {
+					lc.Do("SETCHAN", fmt.Sprintf("ch%d", i), "NEARBY", "k", "FENCE", "POINT", "1", "1", "100000")
+				}
+				fc.Do("FOLLOW", "127.0.0.1", "9001")
+				ok := false
+				for i := 0; i < 100 && !ok; i++ {
+					vsched.Sleep(int64(100 * stdtime.Millisecond))
+					vsched.Quiesce()
+					ok = asMap(fc.Do("SERVER"))["caught_up"] == "true"
+				}
+				if !ok {
+					viol("setup", "the follower did not catch up within 10 virtual seconds")
+					return
+				}
+				ls, fs := x.Dial(L.Addr), x.Dial(F.Addr)
+				ls.Send(respCmd("PSUBSCRIBE", "ch*"))
+				fs.Send(respCmd("PSUBSCRIBE", "ch*"))
+				vsched.Quiesce()
+				recvPayloads(ls)
+				recvPayloads(fs)
+				for i := 0; i < nset; i++ {
+					lc.Do("SET", "k", fmt.Sprintf("o%d", i), "POINT", "1", "1")
+				}
+				for i := 0; i < 20; i++ {
+					vsched.Sleep(int64(100 * stdtime.Millisecond))
+					vsched.Quiesce()
+				}
+				key := func(ms []string) (all []string, per map[string][]string) {
+					per = map[string][]string{}
+					for _, m := range ms {
+						hook := "?"
+						if x := reHookName.FindStringSubmatch(m); x != nil {
+							hook = x[1]
+						}
+						all = append(all, hook+"/"+msgKey(m))
+						per[hook] = append(per[hook], msgKey(m))
+					}
+					return
+				}
+				la, lper := key(recvPayloads(ls))
+				fa, fper := key(recvPayloads(fs))
+				res.Evaluations++
+				res.DistinctS(fmt.Sprint("followersubs", nchan, nset, len(la)))
+				if len(la) == 0 {
+					viol("setup", "the subscriber on the leader received nothing")
+					return
+				}
+				sl, sf := append([]string(nil), la...), append([]string(nil), fa...)
+				sort.Strings(sl)
+				sort.Strings(sf)
+				if strings.Join(sl, ",") != strings.Join(sf, ",") {
+					sig := "lost"
+					if len(fa) > len(la) {
+						sig = "duplicated"
+					} else if len(fa) == len(la) {
+						sig = "lost-and-duplicated"
+					}
+					viol(sig, fmt.Sprintf("subscriber on the follower received %d messages %v, subscriber on the leader %d messages %v", len(fa), vclip(fmt.Sprint(fa), 300), len(la), vclip(fmt.Sprint(la), 300)))
+					return
+				}
+				for h, lm := range lper {
+					if strings.Join(lm, ",") != strings.Join(fper[h], ",") {
+						viol("order", fmt.Sprintf("channel %s: follower order %v, leader order %v", h, fper[h], lm))
+					}
+				}
+			})
+			if x.Err != "" || len(x.Crashes) > 0 {
+				viol("hang-or-crash", fmt.Sprint(x.Err, x.Crashes))
+			}
+		}
+	}
+}
+
+var reHookName = regexp.MustCompile(`"hook":"([^"]*)"`)
